@@ -17,7 +17,10 @@ reg("C22",
          "otherwise). " + _T,
     note="Oracle = the sibling variant (no reference interpreter); multi-input operators are always pull, so flips concern the "
          "20 unary operators; order-sensitive operators (enumerate, zip, scan, non-commutative fold) are only placed on "
-         "streams whose order is defined. Programs have <= 3 sources, <= ~14 operators.")
+         "streams whose order is defined. Only differences at for_each sinks are violations; the inspect taps behind every "
+         "stateful operator (present in all variants) only attribute a difference to the operator whose output differs first "
+         "(whether a mid-pipeline inspect runs at all legitimately depends on the shape, e.g. cross_singleton short-circuits). "
+         "Programs have <= 3 sources, <= ~14 operators.")
 
 reg("C25",
     [custom("vlib.drv_dxshape:run")],
